@@ -5,12 +5,31 @@
    (-?D+.D+ | -?D(.D+)?e[+-]DD+); [cleanup] is value_string's  R_NUMBER_CLEANUP.sub('', ...)  ( \.0*$ );
    [py_dec] is what float(text) reads (sign, mantissa, power of ten) before the decimal->binary conversion;
    [lit_match] is the numeric literal  ^\s*([+-]?\d+(?:\.\d* )?(?:e[+-]\d+)?)  of the expression parser.
+   [cleanup] and [lit_match] are PROVED equal, on every text, to the regenerated regexes run by the engine (first block).
    All theorems are for ALL texts of the grammar (any length).  What CPython itself guarantees (shortest repr,
    correctly rounded strtod) is a HYPOTHESIS of Section CPython, visible in the types below, never an axiom. *)
-From BS Require Import Model.Base Model.Num Model.Regex Model.NumText Gen.Regexes Proofs.C13.
+From BS Require Import Model.Base Model.Num Model.Regex Model.NumText Gen.Unicode Gen.Regexes Proofs.C13 Proofs.C13rx.
 Local Open Scope Z_scope.
 
-(* the two regenerated patterns are the ones the direct functions [cleanup] / [lit_match] give the meaning of *)
+(* THE TIE BETWEEN THE DIRECT FUNCTIONS AND THE REGENERATED REGEXES IS A THEOREM (Proofs/C13rx.v, via Proofs/RegexEval.v:
+   the engine of Model/Regex.v with the fuel it is given = a fuel-free evaluator, for every regex and subject):
+   for EVERY text, running R_NUMBER_CLEANUP (as regenerated from value.py) through re_sub gives [cleanup], and running
+   _R_EXPR_NUMBER (as regenerated from parser.py) through re_match gives [lit_match].  The statements are about the
+   generated constants, so a change of either pattern in the source breaks these proofs.  *)
+Theorem C13_cleanup_engine : forall s, cleanup_rx s = Some (cleanup s).
+Proof. exact cleanup_rx_is_cleanup. Qed.
+Print Assumptions C13_cleanup_engine.
+Theorem C13_literal_engine : forall s, lit_match_rx s = Some (lit_match s).
+Proof. exact lit_match_rx_is_lit. Qed.
+Print Assumptions C13_literal_engine.
+(* the engine's whole answer (end of match and capture table) on the number pattern *)
+Theorem C13_literal_engine_answer : forall s,
+  re_match UC R_EXPR_NUMBER s = match lit_match s with Some (a, e) => MYes e [(1%nat, (a, e))] | None => MNo end.
+Proof. exact number_regex_answer. Qed.
+Print Assumptions C13_literal_engine_answer.
+
+(* FORMER PINS, now consequences of the two theorems above (kept: cheap, and they fail first with a readable message
+   when a pattern changes): the syntactic shape of the clean-up pattern and the engine/direct comparison on 24 samples *)
 Theorem C13_cleanup_regex_is_the_modelled_one : R_NUMBER_CLEANUP = RCat (RLit 46%N) (RCat (RRep 0%nat None (RLit 48%N)) REol).
 Proof. exact cleanup_regex_pin. Qed.
 Theorem C13_engine_agrees_on_samples :
@@ -83,6 +102,49 @@ Theorem C13_roundtrip_literal : forall (repr : flt -> str) (strtod : bool -> Z -
   lit_match text = Some (O, length text) /\ float_with strtod text = Some x.
 Proof. exact roundtrip_literal. Qed.
 Print Assumptions C13_roundtrip_literal.
+
+(* ---- the same property theorems with the regex passes RUN BY THE ENGINE on the regenerated patterns (no pin involved):
+        cleanup_rx = re_sub UC R_NUMBER_CLEANUP (fun _ _ => []) ;  re_match UC R_EXPR_NUMBER *)
+Theorem C13_cleanup_on_grammar_rx : forall s, repr_ok s = true -> exists t, cleanup_rx s = Some t /\ Cleaned s t.
+Proof. exact cleanup_grammar_rx. Qed.
+Print Assumptions C13_cleanup_on_grammar_rx.
+
+Theorem C13_cleanup_preserves_value_rx : forall s, repr_ok s = true ->
+  exists t neg m e m' e', cleanup_rx s = Some t /\ py_dec s = Some (neg, PDec m e) /\ py_dec t = Some (neg, PDec m' e') /\
+                          same_value m e m' e' /\ exists k, 0 <= k /\ m = m' * 10 ^ k /\ e = e' - k.
+Proof. exact cleanup_value_rx. Qed.
+Print Assumptions C13_cleanup_preserves_value_rx.
+
+Theorem C13_nonneg_is_literal_rx : forall s, repr_ok s = true -> is_neg_text s = false ->
+  exists t, cleanup_rx s = Some t /\ re_match UC R_EXPR_NUMBER t = MYes (length t) [(1%nat, (O, length t))].
+Proof. exact cleanup_is_literal_rx. Qed.
+Print Assumptions C13_nonneg_is_literal_rx.
+
+Theorem C13_integral_no_fraction_rx : forall s, repr_ok s = true -> positional s = true ->
+  exists t neg m e, cleanup_rx s = Some t /\ py_dec s = Some (neg, PDec m e) /\ e <= 0 /\
+    (m mod 10 ^ (- e) = 0 -> no_dot t = true /\ all_d (skipn (if neg then 1 else 0) t) = true) /\
+    (m mod 10 ^ (- e) <> 0 -> t = s).
+Proof. exact integral_no_dot_rx. Qed.
+Print Assumptions C13_integral_no_fraction_rx.
+
+Theorem C13_roundtrip_rx : forall (repr : flt -> str) (strtod : bool -> Z -> Z -> flt),
+  (forall x, sf_is_finite x = true -> repr_ok (repr x) = true) ->
+  (forall x, sf_is_finite x = true -> float_with strtod (repr x) = Some x) ->
+  (forall neg m e k, 0 <= k -> strtod neg (m * 10 ^ k) (e - k) = strtod neg m e) ->
+  forall x, sf_is_finite x = true ->
+  exists text, value_string_float_rx (repr x) = Some text /\ parse_number_with strtod text = Some x.
+Proof. exact roundtrip_rx. Qed.
+Print Assumptions C13_roundtrip_rx.
+
+Theorem C13_roundtrip_literal_rx : forall (repr : flt -> str) (strtod : bool -> Z -> Z -> flt),
+  (forall x, sf_is_finite x = true -> repr_ok (repr x) = true) ->
+  (forall x, sf_is_finite x = true -> float_with strtod (repr x) = Some x) ->
+  (forall neg m e k, 0 <= k -> strtod neg (m * 10 ^ k) (e - k) = strtod neg m e) ->
+  forall x, sf_is_finite x = true -> is_neg_text (repr x) = false ->
+  exists text, value_string_float_rx (repr x) = Some text /\
+    re_match UC R_EXPR_NUMBER text = MYes (length text) [(1%nat, (O, length text))] /\ float_with strtod text = Some x.
+Proof. exact roundtrip_literal_rx. Qed.
+Print Assumptions C13_roundtrip_literal_rx.
 
 (* non-vacuity: texts in and out of the grammar, what cleanup does to them, what the parsers return *)
 Theorem C13_nonvacuous :
